@@ -967,3 +967,244 @@ def coq_path_shared(path, defs):
         else:
             out.append("PIndex %d" % x)
     return "[" + ";".join(out) + "]"
+
+
+# ------------------------------------------------------------------------------------
+# layout of a view in its buffer (for the concrete byte store of Text/Store.v)
+# ------------------------------------------------------------------------------------
+class StoreLayout:
+    """Locations of the scalar leaves of a view, from the IR of the real front end and the
+    instance values.  An entry is a dict
+        path   ((("f", name) | ("i", index)), ...)       from the root view
+        loc    dict(order, c, bits=(off, w) | None, kind, ity=(signed, width))
+        boff   byte offset of the container in this instance
+        tests  [("eq", path, k) | ("flag", path, bool)]   existence condition of the field and of everything around it
+        base   constant part of the byte offset
+        terms  [path]                                     integer fields whose values are added
+    OutOfModel is raised for whatever is not understood (counted by the caller, never guessed)."""
+
+    def __init__(self, ir):
+        from compiler.util import ir_util, ir_data
+        self.ir, self.U, self.D = ir, ir_util, ir_data
+        self.vb = ViewBuilder(ir)
+
+    # -- expressions
+    def _ref_path(self, e, prefix):
+        return prefix + tuple(("f", p.canonical_name.object_path[-1]) for p in e.field_reference.path)
+
+    def lin(self, e, prefix):
+        """integer expression -> (constant, [paths])"""
+        F = self.D.FunctionMapping
+        if e.has_field("constant"):
+            return int(e.constant.value), []
+        if e.has_field("field_reference"):
+            return 0, [self._ref_path(e, prefix)]
+        if e.has_field("function") and e.function.function == F.ADDITION:
+            a, b = (self.lin(x, prefix) for x in e.function.args)
+            return a[0] + b[0], a[1] + b[1]
+        cv = self.U.constant_value(e)
+        if cv is not None and not isinstance(cv, bool):
+            return int(cv), []
+        raise OutOfModel("location expression")
+
+    def tests(self, e, prefix):
+        """boolean expression -> conjunction of tests"""
+        F = self.D.FunctionMapping
+        if e.has_field("boolean_constant"):
+            if e.boolean_constant.value:
+                return []
+            raise OutOfModel("constant false condition")
+        if e.has_field("field_reference"):
+            return [("flag", self._ref_path(e, prefix), True)]
+        if e.has_field("function"):
+            fn, args = e.function.function, e.function.args
+            if fn == F.AND:
+                return self.tests(args[0], prefix) + self.tests(args[1], prefix)
+            if fn == F.EQUALITY:
+                for a, b in ((args[0], args[1]), (args[1], args[0])):
+                    if a.has_field("field_reference") and b.has_field("constant"):
+                        return [("eq", self._ref_path(a, prefix), int(b.constant.value))]
+        raise OutOfModel("existence condition")
+
+    # -- walk
+    def build(self, type_ir, inst):
+        self.entries = []
+        self.aliases = []
+        self._struct(type_ir, inst or {}, (), (0, []), [], None)
+        by_path = {e["path"]: e for e in self.entries}
+        for path, target in self.aliases:
+            hit = [e for e in self.entries if e["path"][:len(target)] == target]
+            for e in hit:
+                ne = dict(e)
+                ne["path"] = path + e["path"][len(target):]
+                if ne["path"] not in by_path:
+                    by_path[ne["path"]] = ne
+                    self.entries.append(ne)
+        return self.entries
+
+    def _struct(self, type_ir, inst, prefix, base, tests, container):
+        U = self.U
+        unit = type_ir.addressable_unit
+        for field in type_ir.structure.field:
+            name = field.name.canonical_name.object_path[-1]
+            if U.field_is_virtual(field):
+                wm = field.write_method
+                if wm.has_field("alias") and name in inst and inst[name][0]:
+                    target = prefix + tuple(("f", p.canonical_name.object_path[-1]) for p in wm.alias.path)
+                    self.aliases.append((prefix + (("f", name),), target))
+                continue
+            anon = bool(field.name.is_anonymous)
+            if name in inst:
+                present, value = inst[name]
+                if anon:
+                    value = inst
+            elif anon:
+                present, value = True, inst
+            else:
+                continue
+            if not present:
+                continue
+            ftests = tests + self.tests(field.existence_condition, prefix)
+            c0, terms = self.lin(field.location.start, prefix)
+            size = U.constant_value(field.location.size)
+            if size is None:
+                if not field.type.has_field("array_type"):
+                    raise OutOfModel("field of variable size")
+                size = 0
+            bo = U.get_attribute(field.attribute, "byte_order")
+            order = bo.string_constant.text if bo is not None else None
+            path = prefix + (("f", name),)
+            if container is None:
+                self._type(field.type, value, path, (base[0] + c0, base[1] + terms), ftests, int(size), order, unit, None)
+            else:
+                if terms:
+                    raise OutOfModel("variable bit offset")
+                self._type(field.type, value, path, base, ftests, int(size), order, unit,
+                           (container[0], container[1], container[2] + c0))
+
+    def _type(self, t, value, path, base, tests, size, order, unit, container):
+        """size: in units of the enclosing structure; container (bits context): (order, c bytes, bit offset)."""
+        U = self.U
+        if t.has_field("array_type"):
+            bt = t.array_type.base_type
+            eb = U.fixed_size_of_type_in_bits(bt, self.ir)
+            if eb is None:
+                raise OutOfModel("array of variable-size elements")
+            if container is not None:
+                for i, v in enumerate(value or []):
+                    self._type(bt, v, path + (("i", i),), base, tests, eb, order, unit, (container[0], container[1], container[2] + i * eb))
+                return
+            if eb % 8:
+                raise OutOfModel("array element size")
+            for i, v in enumerate(value or []):
+                self._type(bt, v, path + (("i", i),), (base[0] + i * (eb // 8), base[1]), tests, eb // 8, order, unit, None)
+            return
+        ref = t.atomic_type.reference.canonical_name
+        nm = ref.object_path[-1]
+        nbits = size * unit
+        kind = ity = None
+        if not ref.module_file:
+            if nm == "UInt":
+                kind, ity = "SUInt", (False, least_width(nbits))
+            elif nm == "Int":
+                kind, ity = "SInt", (True, least_width(nbits))
+            elif nm == "Bcd":
+                kind, ity = "SBcd", (False, least_width(nbits))
+            elif nm == "Flag":
+                kind, ity = "SFlag", (False, 8)
+            else:
+                raise OutOfModel("prelude type " + nm)
+        else:
+            obj = U.find_object(ref, self.ir)
+            if obj.has_field("enumeration"):
+                node = self.vb.enum_node(obj, 0, nbits)
+                kind, ity = "SEnum", node[1]
+            elif obj.has_field("structure"):
+                sub = value if isinstance(value, dict) else {}
+                if obj.addressable_unit == 8:
+                    if container is not None:
+                        raise OutOfModel("struct inside bits")
+                    self._struct(obj, sub, path, base, tests, None)
+                else:
+                    if container is not None:
+                        raise OutOfModel("nested bits")
+                    if order is None:
+                        raise OutOfModel("bits without byte order")
+                    self._struct(obj, sub, path, base, tests, (order, size, 0))
+                return
+            else:
+                raise OutOfModel("type " + nm)
+        if container is None:
+            if order is None:
+                raise OutOfModel("scalar without byte order")
+            if not 1 <= size <= 8:
+                raise OutOfModel("scalar of %d bytes" % size)
+            loc = dict(order=order, c=size, bits=None, kind=kind, ity=ity)
+        else:
+            loc = dict(order=container[0], c=container[1], bits=(container[2], nbits), kind=kind, ity=ity)
+        self.entries.append(dict(path=path, loc=loc, tests=list(tests), base=base[0], terms=list(base[1])))
+
+
+def inst_value(inst, path):
+    """Value of the scalar at `path` in an instance dictionary (aliases of anonymous bits are keys of the enclosing structure)."""
+    cur = inst
+    for k, x in path:
+        if k == "f":
+            cur = cur[x][1]
+        else:
+            cur = cur[x]
+    if isinstance(cur, bool):
+        return 1 if cur else 0
+    return int(cur)
+
+
+def emitted_leaf_paths(node, gt, path=()):
+    """Paths of the leaves written as `name: value` (Text.StructText.events_of), in emission order;
+    gt = (plain, Skip, Emit) -> does the generator emit a write clause."""
+    k = node[0]
+    if k == "struct":
+        for fi, n in node[1]:
+            g = {None: gt[0], "Skip": gt[1], "Emit": gt[2]}[fi["attr"]]
+            if g and fi["present"] and not fi["ro"]:
+                yield from emitted_leaf_paths(n, gt, path + (("f", fi["name"]),))
+    elif k == "array":
+        for i, n in enumerate(node[2]):
+            yield from emitted_leaf_paths(n, gt, path + (("i", i),))
+    else:
+        yield path
+
+
+_ORDER = {"LittleEndian": "LE", "BigEndian": "BE"}
+
+
+def coq_loc(loc, boff, null_ctor):
+    o = _ORDER.get(loc["order"]) or (null_ctor if loc["order"] == "Null" else None)
+    if o is None:
+        raise OutOfModel("byte order %r" % loc["order"])
+    if loc["bits"] is None:
+        return "(loc_whole %s %d%%nat %d%%nat %s %s)" % (o, boff, loc["c"], loc["kind"], coq_ity(loc["ity"]))
+    return "(loc_bits %s %d%%nat %d%%nat %d %d %s %s)" % (o, boff, loc["c"], loc["bits"][0], loc["bits"][1], loc["kind"], coq_ity(loc["ity"]))
+
+
+def coq_store_tables(entries, inst, defs, null_ctor):
+    """(ltab term, dtab term, depends_on_buffer?) for the entries of StoreLayout.build."""
+    lt, dt = [], []
+    dep = False
+    for e in entries:
+        boff = e["base"] + sum(inst_value(inst, q) for q in e["terms"])
+        if boff < 0:
+            raise OutOfModel("negative offset")
+        p = coq_path_shared(e["path"], defs)
+        lt.append("(%s, %s)" % (p, coq_loc(e["loc"], boff, null_ctor)))
+        ts = []
+        for t in e["tests"]:
+            if t[0] == "eq":
+                ts.append("TEq %s %s" % (coq_path_shared(t[1], defs), zlit(t[2])))
+            else:
+                ts.append("TFlag %s %s" % (coq_path_shared(t[1], defs), "true" if t[2] else "false"))
+        if e["tests"] or e["terms"]:
+            dep = True
+        dt.append("(%s, mk_dloc [%s] %s [%s] %s)" % (p, ";".join(ts), zlit(e["base"]),
+                                                     ";".join(coq_path_shared(q, defs) for q in e["terms"]),
+                                                     coq_loc(e["loc"], 0, null_ctor)))
+    return "[" + ";".join(lt) + "]", "[" + ";".join(dt) + "]", dep
